@@ -1,2 +1,6 @@
 import GoldilocksVerif.Isa.X86
+import GoldilocksVerif.Isa.Vec
+import GoldilocksVerif.Isa.Avx2
+import GoldilocksVerif.Isa.Avx512
 import GoldilocksVerif.Model.Region
+import GoldilocksVerif.Props.C01
